@@ -517,7 +517,9 @@ func (obj *Flavor) LoadForm() slip.Object {
 	for i, k := range keys {
 		ksym := slip.Symbol(k)
 		if v := obj.defaultVars[k]; v != nil {
-			ivs[i] = slip.List{ksym, v}
+			// The default was evaluated when the flavor was defined and it
+			// is evaluated again when the form is.
+			ivs[i] = slip.List{ksym, slip.LoadFormOf(v)}
 		} else {
 			ivs[i] = ksym
 		}
